@@ -1,0 +1,14 @@
+//go:build verif
+
+package kv
+
+// Exports for the simulator only: a writer of the legacy hand-rolled box
+// format (the shipped code can only read it) and the key derivation.
+
+func VerifLegacySeal(m []byte, n []byte, k *[32]byte) ([]byte, error) {
+	return crypto_secretbox_easy(m, n, k)
+}
+
+func VerifDeriveKey(master, context []byte) []byte { return deriveKey(master, context) }
+
+func VerifNonce(message []byte, n int) ([]byte, error) { return nonce(message, n) }
